@@ -44,7 +44,52 @@ def burst(variant):
     return acts
 
 
+STABLE = {
+    "halt": (OPTS, [["run", 5]], ("Filtration", "halt")),
+    "eco_normal": (OPTS, [["temp", "pool", 28.0], ["mqtt", "/settings/filtration/duration", "86400"], ["mqtt", "/settings/mode", "eco"], ["run", 30]], ("Filtration", "eco_normal")),
+    "eco_waiting": (OPTS, [["temp", "pool", 28.0], ["mqtt", "/settings/filtration/duration", "3600"], ["mqtt", "/settings/filtration/period", "3"], ["mqtt", "/settings/mode", "eco"], ["run", 2000]], ("Filtration", "eco_waiting")),
+    "heating_running": (OPTS, HEAT, ("Filtration", "heating_running")),
+    "standby_normal": (OPTS, [["temp", "pool", 28.0], ["mqtt", "/settings/mode", "eco"], ["run", 20], ["mqtt", "/settings/mode", "standby"], ["run", 400]], ("Filtration", "standby_normal")),
+    "overflow_normal": (OPTS, [["temp", "pool", 28.0], ["mqtt", "/settings/mode", "eco"], ["run", 20], ["mqtt", "/settings/mode", "overflow"], ["run", 400]], ("Filtration", "overflow_normal")),
+    "comfort": (OPTS, [["temp", "pool", 28.0], ["mqtt", "/settings/mode", "eco"], ["run", 20], ["mqtt", "/settings/mode", "standby"], ["run", 400], ["mqtt", "/settings/mode", "comfort"], ["run", 30]], ("Filtration", "comfort")),
+    "sweep": (OPTS, [["temp", "pool", 28.0], ["mqtt", "/settings/mode", "eco"], ["run", 20], ["mqtt", "/settings/mode", "standby"], ["run", 400], ["mqtt", "/settings/mode", "sweep"], ["run", 30]], ("Filtration", "sweep")),
+    "wintering_waiting": (COLD, [["temp", "air", -5.0], ["temp", "ncc", -5.0], ["mqtt", "/settings/mode", "wintering"], ["run", 600]], ("Filtration", "wintering_waiting")),
+    "swim_continuous": (OPTS, [["temp", "pool", 28.0], ["mqtt", "/settings/mode", "eco"], ["run", 20], ["mqtt", "/settings/mode", "overflow"], ["run", 400], ["mqtt", "/settings/swim/mode", "continuous"], ["run", 10]], ("Swim", "continuous")),
+    "swim_timed": (OPTS, [["temp", "pool", 28.0], ["mqtt", "/settings/mode", "eco"], ["run", 20], ["mqtt", "/settings/mode", "standby"], ["run", 400], ["mqtt", "/settings/swim/timer", "5"], ["mqtt", "/settings/swim/mode", "timed"], ["run", 10]], ("Swim", "timed")),
+    "tank_low": (OPTS, [["temp", "pool", 28.0], ["tank", 50], ["mqtt", "/settings/mode", "eco"], ["run", 60], ["tank", 22], ["run", 30]], ("Tank", "low")),
+}
+WILD = ["-1", "0", "1000000000", "nan", "", "abc", "101", "3.5", "4", "61", "-0.5", "ON", "inf"]
+AFTER = [["run", 1500], ["mqtt", "/settings/mode", "eco"], ["run", 1500], ["mqtt", "/settings/mode", "halt"], ["run", 12]]
+
+
+def wild_burst(k):
+    acts = []
+    for i, t in enumerate(scenario.SETTINGS):
+        if t == "/settings/tank/force_empty":
+            continue
+        acts.append(["mqtt", t, WILD[(i + k) % len(WILD)]])
+    return acts
+
+
+def stable():
+    n = 0
+    for name, (opts, prefix, (actor, phase)) in STABLE.items():
+        r = scenario.run_scenario({"opts": opts, "actions": prefix}, [])
+        got = r.sys.state(actor)
+        if got != phase:
+            print(f"recipe {name}: expected {actor}.{phase}, got {got} (states {r.sys.states()})")
+            continue
+        for v in (0, 1):
+            json.dump({"opts": opts, "actions": prefix + burst(v)[:-1] + AFTER}, open(os.path.join(VERIF, "corpus", f"ps_{name}_{v}.json"), "w"))
+            n += 1
+        for k in (0, 5):
+            json.dump({"opts": opts, "actions": prefix + wild_burst(k) + AFTER}, open(os.path.join(VERIF, "corpus", f"ps_{name}_wild{k}.json"), "w"))
+            n += 1
+    print("stable-phase scenarios written", n)
+
+
 def main():
+    stable()
     n = 0
     for name, (opts, prefix, (actor, phase), after) in RECIPES.items():
         r = scenario.run_scenario({"opts": opts, "actions": prefix}, [])
